@@ -134,8 +134,10 @@ def gen_libs(rng, quick, compete=False):
     for st in STYLES:
         libs[st] = g.spelled(lambda i, st=st: st)
     if compete:
-        for st in ("X1", "X2"):
-            libs[st] = g.spelled(lambda i: rng.choice(["S", "D", "N"]))
+        x1 = [rng.choice(["S", "D", "N"]) for _ in g.sites]
+        libs["X1"] = g.spelled(lambda i: x1[i])
+        # the complement: dotted where X1 nests and the other way round
+        libs["X2"] = g.spelled(lambda i: rng.choice(["S", "N"]) if x1[i] == "D" else "D")
     return libs, g.target
 
 
@@ -176,7 +178,7 @@ def run(ctx):
         check_lib(ctx, libs, target, drv)
     ctx.extra["libraries"] = done
     # competing stream (after the main stream, which keeps its random numbers)
-    n_comp = 30 if quick else 600
+    n_comp = 24 if quick else 600
     done_comp = tries = 0
     while done_comp < n_comp and tries < 30 * n_comp:
         tries += 1
